@@ -262,7 +262,10 @@ func TestC08(t *testing.T) {
 			return
 		}
 		fmt.Fprintln(w, "ok")
-		for _, l := range runCase(t, transport, ops) {
+		lp.PoolTraceBegin()
+		res := runCase(t, transport, ops)
+		lp.PoolTraceEnd(fmt.Sprintf("c08 %s %d-ops", transport, len(ops)))
+		for _, l := range res {
 			fmt.Fprintln(w, l)
 		}
 		transport, ops = "", nil
